@@ -1076,3 +1076,17 @@ package twig
 //@   atcall[C09] Node.Render#5 a2 == ctx
 //@ func sameValue props: C05
 //@   pure
+// small invariants that settle safety obligations formerly listed as undecided
+//@ func (*CoreExtension).operatorIs props: C05
+//@   ensures ret1 == nil && typeIs(ret0, "bool")
+//@ func (*CoreExtension).functionMax props: C05
+//@   loop 1 invariant forall k int :: 0 <= k && k <= rangeindex ==> typeIs(args[k], "string")
+//@   loop 2 invariant forall k int :: 0 <= k && k < len(args) ==> typeIs(args[k], "string")
+//@ func (*CoreExtension).functionMin props: C05
+//@   loop 1 invariant forall k int :: 0 <= k && k <= rangeindex ==> typeIs(args[k], "string")
+//@   loop 2 invariant forall k int :: 0 <= k && k < len(args) ==> typeIs(args[k], "string")
+//@ func (*CoreExtension).filterReverse props: C05
+//@   loop 1 invariant 0 <= i && i + j == len(runes) - 1
+//@   loop 3 invariant 0 <= i && i + j == len(runes) - 1
+//@ func renderVariableString props: C05
+//@   loop 1 invariant 0 <= start && start <= len(text)
